@@ -211,6 +211,8 @@ def run_case(c, binding, inputs):
             if o[0] != "ret" or not o[1]:
                 why.append(f"ensures#{i} `{e}`: {show(o)}")
     elif real[0] == "exc":
+        if not c.ref and getattr(c, "raises_only", None) is None:
+            why.append(f"unexpected exception: {show(real)}")
         ns_real["exc"] = real[1]
         for i, e in enumerate(getattr(c, "ensures_exc", ())):
             o = outcome(e, ns_real)
